@@ -107,12 +107,12 @@ C11Src(fp, dp, mt) ==
   With(With(With(With(With(With(With(With(EmptyFs, "d", Dir(dp)), "d/f", Reg(1, 20, mt, 0, fp)),
        "dev", Spc("chr", fp)), "f", Reg(2, 30, mt, 0, fp)), "k", Spc("fifo", fp)), "l", Lnk("d/f")), "ro", Dir(365)), "ro/f", Reg(3, 9, mt, 0, 292))
 C11SrcX(fp, dp, mt) == With(With(C11Src(fp, dp, mt), "e", Reg(5, 0, mt, 0, fp)), "g", Reg(6, 12, mt, 0, fp))   \* an EMPTY file and a file whose old copy is empty
-C11Prior(kind) ==
+C11Prior(kind, mt) ==
   IF kind = "absent" THEN EmptyFs
-  ELSE With(With(With(With(With(With(With(EmptyFs, "d", Dir(448)), "d/f", Reg(1, 20, 777, 0, 384)),   \* same content, other mtime/perm
+  ELSE With(With(With(With(With(With(With(EmptyFs, "d", Dir(448)), "d/f", Reg(1, 20, mt - 1, 600000000, 384)),   \* same content, other perm, mtime 0.4 s before the source's
        "f", Reg(8, 30, 777, 0, 416)), "l", Lnk("zzz")), "ro", Dir(493)), "e", Reg(9, 7, 777, 0, 384)), "g", Reg(9, 0, 777, 0, 384))
 C11Scn ==
-  { Scn(C11Prior(k), ListOf(C11SrcX(fp, dp, mt)), OX(TRUE, l, p, t, TRUE, TRUE, c, FALSE, FALSE, FALSE), 0, {}) :
+  { Scn(C11Prior(k, mt), ListOf(C11SrcX(fp, dp, mt)), OX(TRUE, l, p, t, TRUE, TRUE, c, FALSE, FALSE, FALSE), 0, {}) :
       k \in {"absent", "present"}, fp \in C11Perms, dp \in {493, 365, 448, 320}, mt \in {1000, 1, 2000000000, 0 - 2, 0 - 2000000000},
       l \in BOOLEAN, p \in BOOLEAN, t \in BOOLEAN, c \in BOOLEAN }
 
@@ -142,7 +142,8 @@ C14Scn == { E2E(C14Src, C14Dst, OG(OX(TRUE, l, p, t, dv, sp, c, I, n, del), og, 
 (* same size and mtime but other content, directory / symlink in the way)   *)
 C01Src == With(With(With(With(With(EmptyFs, "a", Reg(1, 40, 1000, 0, 420)), "b", Reg(2, 0, 1000, 0, 420)), "d", Dir(493)), "d/a", Reg(3, 50, 1000, 0, 420)),
                 "d-", Reg(4, 20, 1000, 0, 420))      \* sorts between "d" and "d/a": list order differs from walk order
-C01States(s) == {Absent, s, Reg(9, s.sz + 3, 900, 0, 420), Reg(9, s.sz, 900, 0, 420), Reg(9, s.sz, s.mt, 0, 420), Dir(493), Lnk("b")}
+C01States(s) == {Absent, s, Reg(9, s.sz + 3, 900, 0, 420), Reg(9, s.sz, 900, 0, 420), Reg(9, s.sz, s.mt, 0, 420), Dir(493), Lnk("b"),
+                 Reg(9, s.sz, s.mt - 1, 600000000, 420)}     \* same size, other content, mtime less than a second before the source's
 C01Scn == { E2E(C01Src, dst, OX(TRUE, FALSE, FALSE, t, FALSE, FALSE, c, I, FALSE, FALSE), <<>>) :
               dst \in { With(With(With(With(With(EmptyFs, "a", sa), "b", sb), "d", sd), "d/a", IF sd.t = "dir" THEN sda ELSE Absent), "d-", Reg(9, 20, 900, 0, 420)) :
                           sa \in C01States(C01Src["a"]), sb \in {Absent, C01Src["b"], Reg(9, 7, 900, 0, 420)},
